@@ -248,6 +248,9 @@ func runC20(c *core.Ctx) {
 	c.Doc("C20.elementwise", "slices index by index over the whole source; struct fields paired by case-folded name", 2)
 	ruleElementwise(c, conv)
 
+	c.Doc("C20.cache-keys", "a table kept by the conversion package is keyed by the reflect.Types concerned, not by a rendering of them", 1)
+	rulePackageCacheKeys(c, "C20.cache-keys", "type/conversion")
+
 	c.Doc("C20.errors", "a failing element conversion fails the whole conversion, inside the package and at every caller", 6)
 	n := 0
 	// the conversion package itself, and every caller of its entry points in the repository
